@@ -23,6 +23,8 @@ THEOREMS = [
     # reduce_indices / all_indices
     'C16.gcdList_spec', 'C16.reduce_coprime', 'C16.reduce_same_direction', 'C16.reduce_zero',
     'C16.allIndices_complete', 'C16.allIndices_sound', 'C16.allIndices_reduce_complete',
+    # fromstring: index strings parse to the numbers they show
+    'C16.parseInt_renderInt', 'C16.fromString_render', 'C16.fromString_renderW',
     # family identification
     'C16.isclose_iff', 'C16.identify_cubic', 'C16.identify_hexagonal', 'C16.identify_tetragonal',
     'C16.identify_rhombohedral', 'C16.identify_orthorhombic', 'C16.identify_monoclinic', 'C16.identify_triclinic',
